@@ -166,13 +166,14 @@ def check_variant(ctx, tf, vname, raw_ts, ref, desc, eager0):
         def attempt(access, fn, want, count_as=None):
             try:
                 got = fn()
+                gi = img(got)
+                if raw_ts and gi[0] == 'ts':
+                    # the documented change of representation is itself a library call
+                    gi = C.image(np.asarray(got.as_datetime64('us')) if len(got) else np.zeros(0, dtype='M8[us]'))
             except Exception as ex:
                 ctx.violation('raises/%s/%s/%s%s' % ('lazy' if is_lazy else 'eager', access, util.exc_key(ex), kind), dict(info, exc=util.exc_detail(ex)))
                 return
             ctx.count('path:' + (count_as or access))
-            gi = img(got)
-            if raw_ts and gi[0] == 'ts':
-                gi = C.image(np.asarray(got.as_datetime64('us')) if len(got) else np.zeros(0, dtype='M8[us]'))
             wi = img(want)
             if not C.img_equal(gi, wi):
                 ctx.violation('differs/%s/%s%s' % ('lazy' if is_lazy else 'eager', access, kind),
